@@ -975,7 +975,11 @@ impl ErasedNode for Node {
         } else if !self.is_necessary() {
             NodeUpdateDelayed::Unnecessary
         } else {
-            match self.value_as_any().is_some() {
+            // node_update runs in stabilise_end, after stabilisation_num was bumped
+            let changed_this_round = self
+                .state_opt()
+                .map_or(true, |t| self.changed_at.get().add1() == t.stabilisation_num.get());
+            match self.value_as_any().is_some() && changed_this_round {
                 true => NodeUpdateDelayed::Changed,
                 false => NodeUpdateDelayed::Necessary,
             }
